@@ -30,7 +30,7 @@ EXTENDS TMWalOps
 
 CONSTANTS
   BufCap, HeadLimit, TotalLimit,   \* the group's bufio size, headSizeLimit, totalSizeLimit
-  MaxRecs,      \* records the node writes (EndHeightMessage{0} written by OnStart not counted)
+  MaxRecs,      \* the node stops writing once the log has seen this many records (#ENDHEIGHT 0 of OnStart included)
   MaxFiles,     \* files in the group, head included
   MaxCrash,     \* crash / reopen cycles
   MaxStop,      \* graceful stops
